@@ -130,6 +130,7 @@ type Enc struct {
 	globalFacts int             // >0: assertions made now hold in every block (facts about shared constants)
 	opaqueUsed  map[string]bool
 	noFacts     bool // proving the facts themselves
+	liteB       bool // background without the byte-string theory (model search for replay only)
 	inFact      bool // evaluating the statement of a fact: opaque functions stay opaque
 	factCache   map[string]string
 	defineOpaque bool // evaluating the definitions themselves (fact proofs): opaque functions are expanded
